@@ -240,7 +240,7 @@ def run_parsers(prop, tier):
             cov["probes"] = {"ctor_during_other_run": agg.stats["ctor_during_other_run"], "exc_outcomes": agg.stats["exc_outcomes"],
                              "line_points": agg.stats["line_points"], "label_points": agg.stats["label_points"], "lock_waits": agg.stats["lock_waits"],
                              "then_objects_runs": agg.stats["then_objects_runs"], "marathon_runs": agg.stats["marathon_runs"],
-                             "same_text_tasks": agg.stats["same_text_tasks"], "via_file_tasks": agg.stats["via_file_tasks"], "dumping_tasks": agg.stats["dumping_tasks"], "constructed_in_another_thread": agg.stats["ctor_elsewhere"], "followup_tasks": agg.stats["followup_tasks"],
+                             "same_text_tasks": agg.stats["same_text_tasks"], "via_file_tasks": agg.stats["via_file_tasks"], "global_state_changed": agg.stats["global_state_changed"], "victims_run": agg.stats["victims_run"], "dumping_tasks": agg.stats["dumping_tasks"], "constructed_in_another_thread": agg.stats["ctor_elsewhere"], "followup_tasks": agg.stats["followup_tasks"],
                              "runs_by_granularity": {g: agg.stats["gran_" + g] for g in ("O", "S", "L")}, "pct_runs": agg.stats["pct_runs"],
                              "line_focus": {k[6:]: v for k, v in sorted(agg.stats.items()) if k.startswith("focus_")}}
         core.write_evidence(prop, tier, base, "exploration", cov, wall_s, len(report.violations),
